@@ -24,6 +24,7 @@ CLAIMED = {
  "C09": ("Lean 4 proof (no start after cancel) + trace-replay correspondence", "no started event after cancelled in any model log; structural cancellation oracles and receive-after-cancel trace rule on the real scheduler.", "3 C09", S_NOTE),
  "C02": ("Lean 4 proof (topological enqueue order, order-independence of the denotation, body semantics) + differential oracle on generated programs", "Enqueue order respects dependencies for every acyclic flow; the denoted values are invariant under listing order and concurrency; every generated program of the run is executed under all/sampled outcome assignments, 64-way concurrently, and compared with the model's reference execution.", "3 C02", D_NOTE),
  "C10": ("Lean 4 proof (job structure of generated Parallel code + scheduler theorems) + differential oracle on generated programs", "Element jobs are exactly (i, s[i]) resp. (k, m[k]) with own copies, End job depends on exactly its elements (so by C01 runs after all of them, never after a failure); sizes nil,0,1,2,17,300 executed on real generated code.", "3 C10", D_NOTE),
+ "C14": ("Lean 4 proof (acceptance by the validation model implies unique providers, consumed outputs, acyclicity, ordered jobs) + differential on accepted and mutated generated programs", "Partial: soundness of acceptance proved for every program of the model (no bound on tasks); the diagnostic category reported by the real cff for every well-formed and every mutated program (missing provider, duplicate provider, cycle, unused output, fallback without error, bad Invoke, non-assignable element, instrument without emitter, ContinueOnError with End) is compared with the model's validate; accepted programs are additionally compiled and type-checked.", "3 C14", D_NOTE),
  "C15": ("Lean 4 proof (prologue is a sorted permutation) + differential oracle (every argument slot wrapped in a logging call)", "Each hoisted expression evaluated once in source order in the model; evaluation order, goroutine and before-first-task observed on real generated code for every slot; err capture is a recorded finding.", "3 C15", D_NOTE),
  "C20": ("Lean 4 proof (source-map adds only comments) + comment-stripped comparison of base and source-map output; differential execution for modifier mode", "Model-level equality of code tokens; byte/token comparison of both modes for every generated program and the repository's corpus.", "3 C20", D_NOTE),
  "C04": ("Lean 4 proof (recover structure of task bodies; scheduler error accounting) + differential oracle on generated programs", "No panic escapes a generated body and the job error is the PanicError of the panicking function, for every task shape/scenario/store of the model; every function kind x panic value class executed on real generated code with crash isolation.", "3 C04", D_NOTE),
@@ -57,7 +58,7 @@ m = {
  "setup_cmd": "./check setup",
  "hooks": {"guard": "verif", "enable": "go build -tags verif (harness module replaces go.uber.org/cff => /repo)",
            "baseline_off_cmd": "cd /repo && for m in . ./internal/tests; do (cd $m && GOFLAGS=-mod=mod go test -json -vet=off -count=1 -timeout 25m ./...); done",
-           "source_commits": ["b9a1210", "2254e93"], "add_only": True},
+           "source_commits": ["b9a1210", "2254e93", "33e8576", "4c8d53f", "8f69b9f"], "add_only": True},
  "engines": [{"name": "lean4+harness", "path": "/verif/lean, /verif/harness, /verif/lib", "serves_properties": sorted(CLAIMED),
               "kind_free_text": "Lean 4 models and theorems; Go harness driving the real code; Lean driver replaying traces/observations through the models"}],
  "checks": checks,
